@@ -207,6 +207,26 @@ def _make_super(loader, mod, cls_qual):
     return sup
 
 
+def _sym_container(v, depth=0):
+    """module-level tables of angle constants (e.g. VALID_ANGLE_MAP): rebuilt with the symbolic pi inside"""
+    if depth > 3:
+        return None
+    changed = False
+    if isinstance(v, dict):
+        out = {}
+        for k, x in v.items():
+            c = _sym_const(x) if isinstance(x, float) else (_sym_container(x, depth + 1) if isinstance(x, (dict, tuple, list)) else None)
+            out[k] = x if c is None else c
+            changed = changed or c is not None
+        return out if changed else None
+    items = []
+    for x in v:
+        c = _sym_const(x) if isinstance(x, float) else (_sym_container(x, depth + 1) if isinstance(x, (dict, tuple, list)) else None)
+        items.append(x if c is None else c)
+        changed = changed or c is not None
+    return type(v)(items) if changed else None
+
+
 class LazyFn:
     """A resonaate function referenced from an extracted function: extracted itself on first call."""
 
@@ -335,6 +355,10 @@ class Loader:
                 g[name] = LazyFn(spec, self)
             elif isinstance(v, float):
                 c = _sym_const(v)
+                if c is not None:
+                    g[name] = c
+            elif isinstance(v, (dict, tuple, list)) and name.isupper():
+                c = _sym_container(v)
                 if c is not None:
                     g[name] = c
             if name in self.const_overrides:
